@@ -41,6 +41,7 @@ const (
 
 	addBlockMark    = "addBlockMark"
 	removeBlockMark = "removeBlockMark"
+	reorgMark       = "reorgMark"
 
 	hashDBPrefix       = "block"
 	heightDBPrefix     = "height"
